@@ -809,6 +809,16 @@ class Explorer:
             self.stats.q_sat += 1
             return r2, s2
         r = self._check(neg)
+        if r == 'unknown' and getattr(self, 'str_mode', False):
+            r3, m3 = cvc5_check(list(self.pc) + [neg], self.names, self.timeout_ms)
+            if r3 in ('sat', 'unsat'):
+                self.stats.q_unknown -= 1
+                if r3 == 'unsat':
+                    self.stats.q_unsat += 1
+                else:
+                    self.stats.q_sat += 1
+                self.stats.cvc5_answers = getattr(self.stats, 'cvc5_answers', 0) + 1
+                return r3, m3
         return r, self.solver
 
     def _add(self, c):
@@ -1141,6 +1151,67 @@ class Explorer:
         return False
 
 
+class _ValModel:
+    """model read back from cvc5 (get-value): just enough of z3's ModelRef interface for prove()"""
+    def __init__(self, values):
+        self.values = values
+
+    def model(self):
+        return self
+
+    def eval(self, v, model_completion=True):
+        n = v.decl().name() if z3.is_const(v) else None
+        if n in self.values:
+            return self.values[n]
+        return v
+
+
+def cvc5_check(assertions, names, timeout_ms):
+    """second opinion for string queries: z3's SMT-LIB dump is parsed and solved by cvc5 (python API)"""
+    try:
+        import cvc5
+    except Exception:
+        return 'unknown', None
+    s = z3.Solver()
+    s.add(*assertions)
+    text = '(set-logic ALL)\n' + s.to_smt2()
+    nm = [n for n, v in names.items() if z3.is_const(v) and (z3.is_string(v) or z3.is_int(v))]
+    if nm:
+        text += '\n(get-value (%s))\n' % ' '.join('|%s|' % n if not n.replace('_', 'a').isalnum() else n for n in nm)
+    try:
+        slv = cvc5.Solver()
+        slv.setOption('strings-exp', 'true')
+        slv.setOption('produce-models', 'true')
+        slv.setOption('tlimit-per', str(int(timeout_ms)))
+        p = cvc5.InputParser(slv)
+        p.setStringInput(cvc5.InputLanguage.SMT_LIB_2_6, text, 'q')
+        sm = p.getSymbolManager()
+        outs = []
+        while True:
+            cmd = p.nextCommand()
+            if cmd.isNull():
+                break
+            o = cmd.invoke(slv, sm)
+            if o.strip():
+                outs.append(o.strip())
+    except Exception:
+        return 'unknown', None
+    if not outs or outs[0] not in ('sat', 'unsat'):
+        return 'unknown', None
+    if outs[0] == 'unsat':
+        return 'unsat', None
+    vals = {}
+    if len(outs) > 1:
+        import re as _re
+        for m in _re.finditer(r'\(\|?([^\s()|]+)\|?\s+("(?:[^"]|"")*"|-?\d+|\(- \d+\))\)', outs[1]):
+            k, v = m.group(1), m.group(2)
+            if v.startswith('"'):
+                vals[k] = z3.StringVal(v[1:-1].replace('""', '"'))
+            else:
+                vals[k] = z3.IntVal(int(v.replace('(- ', '-').replace(')', '')))
+    return 'sat', _ValModel(vals)
+
+
 def _model_value(val):
     if z3.is_int_value(val):
         return val.as_long()
@@ -1271,6 +1342,9 @@ class FloatCtx:
             raise ReplayMismatch('assumption fails in doubles: %s' % (note or ''))
 
     def assume_div(self, d):
+        pass
+
+    def _add(self, c):
         pass
 
     def feasible(self):
